@@ -1451,4 +1451,280 @@ example : ¬ RecordsRoot cexMsg.origRcpts (fun _ => 1) [3] := by
   revert this
   decide
 
+
+/-! ## the local part is opaque (strengthening round 8)
+
+`address.SelectIDNA` (mirrored by `Dsn.selectIDNA`, the library calls on the DOMAIN being the
+parameter `DomConv`) cuts the address at its last at-sign, converts the domain and puts the local
+part back untouched — for every input, whatever the library answers. -/
+
+/-- `out` shows `addr` with the local part that `address.Split` cuts off untouched: it is that
+local part alone (the domain-less postmaster) or that local part, an at-sign and some domain. -/
+def KeepsLocalPart (addr out : Str) : Prop :=
+  ∃ mb dom, splitAddr addr = some (mb, dom) ∧
+    ((dom = [] ∧ out = mb) ∨ (dom ≠ [] ∧ ∃ d, out = mb ++ 64 :: d))
+
+theorem splitLast_spec (c : Nat) (s a b : Str) (h : splitLast c s = some (a, b)) :
+    s = a ++ c :: b := by
+  induction s generalizing a with
+  | nil => simp [splitLast] at h
+  | cons x rest ih =>
+    unfold splitLast at h
+    cases hr : splitLast c rest with
+    | some p =>
+      obtain ⟨a', b'⟩ := p
+      simp only [hr, Option.some.injEq, Prod.mk.injEq] at h
+      obtain ⟨rfl, rfl⟩ := h
+      simp [ih a' hr]
+    | none =>
+      simp only [hr] at h
+      by_cases hx : (x == c) = true
+      · simp only [hx, if_true, Option.some.injEq, Prod.mk.injEq] at h
+        obtain ⟨rfl, rfl⟩ := h
+        simp at hx; simp [hx]
+      · simp [hx] at h
+
+theorem splitLast_none (c : Nat) (s : Str) (h : c ∉ s) : splitLast c s = none := by
+  induction s with
+  | nil => rfl
+  | cons x rest ih =>
+    have h1 : c ∉ rest := fun hm => h (List.mem_cons_of_mem _ hm)
+    have h2 : (x == c) = false := by
+      simp only [beq_eq_false_iff_ne, ne_eq]
+      intro hx; exact h (by simp [hx])
+    simp [splitLast, ih h1, h2]
+
+theorem splitLast_append (c : Nat) (a b : Str) (hb : c ∉ b) :
+    splitLast c (a ++ c :: b) = some (a, b) := by
+  induction a with
+  | nil => simp [splitLast, splitLast_none c b hb]
+  | cons x t ih => simp [splitLast, ih]
+
+/-- `address.Split` answers with the two sides of the last at-sign (or the whole string and no
+domain for the domain-less postmaster). -/
+theorem splitAddr_spec (addr mb dom : Str) (h : splitAddr addr = some (mb, dom)) :
+    (dom = [] ∧ mb = addr) ∨ (dom ≠ [] ∧ addr = mb ++ 64 :: dom) := by
+  unfold splitAddr at h
+  split at h
+  · simp only [Option.some.injEq, Prod.mk.injEq] at h
+    exact .inl ⟨h.2.symm, h.1.symm⟩
+  · split at h
+    · simp at h
+    · rename_i mb' dom' hs
+      split at h
+      · simp at h
+      · rename_i hne
+        simp only [Option.some.injEq, Prod.mk.injEq] at h
+        obtain ⟨rfl, rfl⟩ := h
+        refine .inr ⟨?_, splitLast_spec 64 addr _ _ hs⟩
+        intro hd; simp [hd] at hne
+
+/-- **The converted address keeps the supplied local part, for every input.**  Whatever the
+library does with the domain, a successful `address.SelectIDNA` (either direction) returns the
+local part of its argument byte for byte. -/
+theorem C18_selectIDNA_keeps_local_part (dc : DomConv) (u : Bool) (addr out : Str)
+    (h : selectIDNA dc u addr = some out) : KeepsLocalPart addr out := by
+  unfold selectIDNA at h
+  cases hs : splitAddr addr with
+  | none => cases u <;> simp [toUnicode, toASCII, hs] at h
+  | some p =>
+    obtain ⟨mb, dom⟩ := p
+    refine ⟨mb, dom, hs, ?_⟩
+    cases dom with
+    | nil =>
+      left
+      cases u
+      · simp only [toASCII, hs, Bool.false_eq_true, if_false] at h
+        split at h
+        · simp at h
+        · simp at h; exact ⟨rfl, h.symm⟩
+      · simp [toUnicode, hs] at h; exact ⟨rfl, h.symm⟩
+    | cons x t =>
+      right
+      refine ⟨by simp, ?_⟩
+      cases u
+      · simp only [toASCII, hs, Bool.false_eq_true, if_false] at h
+        split at h
+        · simp at h
+        · simp only [List.isEmpty_cons, Bool.false_eq_true, if_false] at h
+          split at h
+          · simp at h
+          · rename_i d _
+            exact ⟨d, (Option.some.inj h).symm⟩
+      · simp only [toUnicode, hs, if_true, List.isEmpty_cons, Bool.false_eq_true, if_false] at h
+        split at h
+        · simp at h
+        · rename_i d _
+          exact ⟨d, (Option.some.inj h).symm⟩
+
+/-- Read back the way a mail system reads an address: when the library's answer for the domain
+contains no at-sign, cutting the shown address at its LAST at-sign gives exactly the supplied local
+part (and the converted domain). -/
+theorem C18_shown_address_splits_at_supplied_local_part (dc : DomConv) (u : Bool)
+    (addr out mb dom : Str) (h : selectIDNA dc u addr = some out)
+    (hs : splitAddr addr = some (mb, dom)) (hdom : dom ≠ [])
+    (hno : ∀ d, (dc.toASCII dom = some d ∨ dc.toUnicode dom = some d) → 64 ∉ d) :
+    ∃ d, splitLast 64 out = some (mb, d) := by
+  unfold selectIDNA at h
+  cases dom with
+  | nil => exact absurd rfl hdom
+  | cons x t =>
+    cases u
+    · simp only [toASCII, hs, Bool.false_eq_true, if_false] at h
+      split at h
+      · simp at h
+      · simp only [List.isEmpty_cons, Bool.false_eq_true, if_false] at h
+        split at h
+        · simp at h
+        · rename_i d hd
+          have := (Option.some.inj h).symm
+          subst this
+          exact ⟨d, splitLast_append 64 mb d (hno d (.inl hd))⟩
+    · simp only [toUnicode, hs, if_true, List.isEmpty_cons, Bool.false_eq_true, if_false] at h
+      split at h
+      · simp at h
+      · rename_i d hd
+        have := (Option.some.inj h).symm
+        subst this
+        exact ⟨d, splitLast_append 64 mb d (hno d (.inr hd))⟩
+
+/-- The two lists have the same length and `P` holds position by position. -/
+inductive AllPairs {α β : Type} (P : α → β → Prop) : List α → List β → Prop
+  | nil : AllPairs P [] []
+  | cons {a b l1 l2} : P a b → AllPairs P l1 l2 → AllPairs P (a :: l1) (b :: l2)
+
+theorem mtaGroup_xSender (ix : Idna) (utf8 : Bool) (m : MtaInfo) (g : MtaGroup)
+    (h : mtaGroup ix utf8 m = .ok g) (t : AddrType) (a : Str) (hx : g.xSender = some (t, a)) :
+    ix.addr utf8 m.xSender = some a := by
+  unfold mtaGroup at h
+  cases h0 : m.reportingMTA.isEmpty <;> simp only [h0, if_true, Bool.false_eq_true, if_false] at h
+  · cases h1 : ix.dom utf8 m.reportingMTA <;> simp only [h1] at h
+    · cases h
+    · cases h2 : m.receivedFromMTA.isEmpty <;> cases h3 : m.xSender.isEmpty <;>
+        cases h4 : ix.dom utf8 m.receivedFromMTA <;> cases h5 : ix.addr utf8 m.xSender <;>
+        simp only [h2, h3, h4, h5, if_true, Bool.false_eq_true, if_false] at h <;>
+        first
+          | (cases h; done)
+          | (cases h; simp at hx; done)
+          | (cases h; simp only [Option.some.injEq, Prod.mk.injEq] at hx; rw [hx.2])
+  · cases h
+
+theorem rcptGroup_addr (ix : Idna) (utf8 : Bool) (r : RcptInfo) (g : RcptGroup)
+    (h : rcptGroup ix utf8 r = .ok g) : ix.addr utf8 r.finalRcpt = some g.addr := by
+  unfold rcptGroup at h
+  split at h
+  · simp at h
+  · split at h
+    · simp at h
+    · rename_i a ha
+      split at h
+      · simp at h
+      · split at h
+        · simp at h
+        · split at h
+          · simp at h
+          · split at h
+            · cases h; exact ha
+            · split at h
+              · simp at h
+              · cases h; exact ha
+
+theorem rcptGroups_keep_local_parts (dc : DomConv) (dom : Bool → Str → Option Str) (utf8 : Bool) :
+    ∀ (rs : List RcptInfo) (gs : List RcptGroup),
+      rcptGroups (Idna.ofConv dc dom) utf8 rs = .ok gs →
+      AllPairs (fun r g => KeepsLocalPart r.finalRcpt g.addr) rs gs := by
+  intro rs
+  induction rs with
+  | nil => intro gs h; simp [rcptGroups] at h; subst h; exact .nil
+  | cons r t ih =>
+    intro gs h
+    unfold rcptGroups at h
+    cases hg : rcptGroup (Idna.ofConv dc dom) utf8 r with
+    | error e => simp [hg] at h
+    | ok g =>
+      cases ht : rcptGroups (Idna.ofConv dc dom) utf8 t with
+      | error e => simp [hg, ht] at h
+      | ok gs' =>
+        simp [hg, ht] at h
+        subst h
+        refine .cons ?_ (ih gs' ht)
+        exact C18_selectIDNA_keeps_local_part dc utf8 _ _ (rcptGroup_addr _ utf8 r g hg)
+
+/-- **Every report names each recipient record — and the sender — under exactly the local part that
+was supplied**, in both report flavours, for every input and whatever the IDNA library answers:
+group i of the delivery-status part shows record i with its local part byte for byte (only the
+domain is in the form the report type requires), the `X-Maddy-Sender` field likewise, and the
+human-readable part and the `To:` field carry the supplied strings unconverted. -/
+theorem C18_report_shows_supplied_local_parts (dc : DomConv) (dom : Bool → Str → Option Str)
+    (utf8 : Bool) (env : Envelope) (mta : MtaInfo) (rs : List RcptInfo) (h : Hdr) (rep : Report)
+    (hg : generate (Idna.ofConv dc dom) utf8 env mta rs h = .ok rep) :
+    AllPairs (fun r g => KeepsLocalPart r.finalRcpt g.addr) rs rep.rcpts ∧
+    (∀ t a, rep.mta.xSender = some (t, a) → KeepsLocalPart mta.xSender a) ∧
+    rep.human.map (·.1) = rs.map (·.finalRcpt) ∧ rep.hdrTo = env.to := by
+  obtain ⟨_, _, hto, _, _, hhum, _, hm, hr⟩ := generate_ok _ utf8 env mta rs h rep hg
+  refine ⟨rcptGroups_keep_local_parts dc dom utf8 rs rep.rcpts hr, ?_, ?_, hto⟩
+  · intro t a hx
+    exact C18_selectIDNA_keeps_local_part dc utf8 _ _ (mtaGroup_xSender _ utf8 mta rep.mta hm t a hx)
+  · rw [hhum]; simp [humanLines]
+
+theorem forall2_of_map_eq {α β γ : Type} (f : α → γ) (g : β → Option γ) (P : α → β → Prop)
+    (hP : ∀ a b, g b = some (f a) → P a b) :
+    ∀ (l1 : List α) (l2 : List β), l1.map (fun a => some (f a)) = l2.map g → AllPairs P l1 l2 := by
+  intro l1
+  induction l1 with
+  | nil => intro l2 h; cases l2 with
+    | nil => exact .nil
+    | cons b t => simp at h
+  | cons a t ih =>
+    intro l2 h
+    cases l2 with
+    | nil => simp at h
+    | cons b t2 =>
+      simp only [List.map_cons, List.cons.injEq] at h
+      exact .cons (hP a b h.1.symm) (ih t2 h.2)
+
+/-- **Through the queue: each failed recipient is reported under exactly the local part the sender
+used.**  With `address.SelectIDNA` as the code has it, the groups of every report handed over in an
+attempt stand, in order, for the recipients failing terminally in that attempt, and group i shows
+the address the SENDER used for recipient i (`root`) with its local part byte for byte — not a
+normalised, case-folded or otherwise "equivalent" spelling. -/
+theorem C18_queue_report_keeps_senders_local_parts
+    (cfg : Cfg) (dc : DomConv) (hix : cfg.idna.addr = selectIDNA dc)
+    (maxTries : Nat) (now : Addr → Option Err) (failAt : Option Stage) (q : QMeta)
+    (hnd : q.to.Nodup) (root : Addr → Addr) (hroot : RecordsRoot q.msg.origRcpts root q.to)
+    (rep : Report) (hrep : rep ∈ reportsOf (bounces (attempt cfg maxTries now failAt q).2)) :
+    AllPairs (fun g r => KeepsLocalPart (cfg.name (root r)) g.addr)
+      rep.rcpts (failedNow maxTries now q) := by
+  have h := (C18_lists_exactly_failed_under_original_addresses cfg maxTries now failAt q hnd root
+    hroot rep hrep).1
+  refine forall2_of_map_eq (fun g : RcptGroup => g.addr)
+    (fun r => cfg.idna.addr q.msg.utf8 (cfg.name (root r))) _ ?_ _ _ h
+  intro g r hgr
+  rw [hix] at hgr
+  exact C18_selectIDNA_keeps_local_part dc q.msg.utf8 _ _ hgr
+
+/-- The seeded change C18-14 as a model (`address.ToUnicode` normalising the WHOLE address) would
+violate it: `KeepsLocalPart` is not satisfied by an address whose local part was rewritten. -/
+example : ¬ KeepsLocalPart [101, 769, 64, 120] [233, 64, 120] := by
+  intro ⟨mb, dom, hs, h⟩
+  have : splitAddr [101, 769, 64, 120] = some ([101, 769], [120]) := by decide
+  rw [this] at hs
+  simp only [Option.some.injEq, Prod.mk.injEq] at hs
+  obtain ⟨rfl, rfl⟩ := hs
+  rcases h with ⟨hd, _⟩ | ⟨_, d, hd⟩
+  · simp at hd
+  · simp at hd
+
+-- non-vacuity: decomposed local part + IDN domain, both flavours; the domain-less postmaster
+-- (also with U+017F); the hypotheses of the queue theorem hold for the example queue
+def exConv : DomConv := ⟨fun d => some (120 :: 110 :: 45 :: 45 :: d), fun d => some d⟩
+example : selectIDNA exConv true [101, 769, 64, 1087] = some [101, 769, 64, 1087] := by decide
+example : selectIDNA exConv false [101, 769, 64, 1087] = none := by decide
+example : selectIDNA exConv false [85, 115, 64, 1087] = some [85, 115, 64, 120, 110, 45, 45, 1087] := by decide
+example : splitAddr [112, 111, 383, 116, 109, 97, 115, 116, 101, 114] =
+    some ([112, 111, 383, 116, 109, 97, 115, 116, 101, 114], []) := by decide
+example : selectIDNA exConv true postmaster = some postmaster := by decide
+example : splitAddr [64, 120] = none ∧ splitAddr [120, 64] = none ∧ splitAddr [120] = none := by decide
+example : ({ cexCfg with idna := Idna.ofConv exConv (fun _ d => some d) } : Cfg).idna.addr = selectIDNA exConv := rfl
+
 end MaddyVerif.C18
